@@ -1222,8 +1222,12 @@ class ktensor:
         wsubs, _ = W.find()
 
         # Assemble return array
-        nvals = wsubs.shape[0]
+        # A mask without nonzeros (e.g. an empty sptensor, whose subscript
+        # array has no columns) selects nothing
+        nvals = wsubs.shape[0] if wsubs.size > 0 else 0
         vals = np.zeros((nvals, 1))
+        if nvals == 0:
+            return vals
         for j in range(self.ncomponents):
             tmpvals = self.weights[j] * np.ones((nvals, 1))
             for k in range(self.ndims):
